@@ -17,7 +17,7 @@ TECHNIQUE = 'typestate over a statement CFG with exceptional edges (in-place sca
 LEVEL_TEXT = ('Crashes and hangs inside CyRK/LAPACK are out of reach. Decided: every exit of cf_radial_solver after the in-place non-dimensionalisation passes the restoring call (normal, explicit raise, and statements that may raise Python exceptions); '
               'no access to a stack array is outside its declared extent for any layer-kind combination; numeric accessors are dominated by `success`; `success` is set only on the error-free path; loops make progress; every assumption combination reaches a handler or a raise.')
 LEVEL_NOTE = ('Trusted: Cython-subset front-end incl. recorded array extents and noexcept qualifiers, CFG builder, interval rules. Restoration to "a few ulp" (x c then / c) is arithmetic, not decided. Memory leaks are outside the property.')
-EXPLANATION = 'R06.1 restore typestate; R06.2 fixed-size buffers; R06.3 success protocol; R06.4 totality of dispatch and loop progress; R06.5 LAPACK status read before reuse and before success; R06.6 array lengths checked before pointers are taken; R06.1/R06.2 additionally on the executed driver (inputs intact on every exit kind, every access within its extent).'
+EXPLANATION = 'R06.1 restore typestate; R06.2 fixed-size buffers; R06.3 success protocol; R06.4 totality of dispatch and loop progress; R06.5 LAPACK status read before reuse and before success; R06.6 array lengths checked before pointers are taken; R06.1/R06.2 additionally on the executed driver (inputs intact on every exit kind, every access within its extent); R06.7 no raw-pointer access indexed by a parameter runs before the guard that validates that parameter (check-after-use).'
 
 PY_OBJECT_TYPES = ('str', 'tuple', 'list', 'dict', 'object', 'bytes')
 C_PURE = {'range', 'len', 'print', 'min', 'max', 'abs', 'int', 'float', 'isnan', 'isinf', 'isfinite', 'fabs', 'sqrt', 'cbrt', 'sin', 'cos', 'exp', 'log', 'sizeof', 'floor', 'ceil', 'pow', 'copysign', 'signbit', 'hypot', 'atan2', 'PyMem_Free', 'free',
@@ -100,7 +100,9 @@ def run(chk):
     kernel_extents(chk, repo)
     status_discipline(chk, repo, ms, f)
     length_guards(chk, repo, ms)
-    chk.floor('R06.5', 2); chk.floor('R06.6', 4)
+    use_before_guard(chk, repo, ms, f)
+    use_before_guard_all(chk, repo)
+    chk.floor('R06.5', 2); chk.floor('R06.6', 4); chk.floor('R06.7', 1)
     # ---- whole-driver symbolic execution (last): bounds of every array access during a complete solve; inputs restored on normal and failing exits.
     #      If the driver cannot be interpreted on a tree for which the rules above already report unlisted violations, those are the verdict; otherwise fail closed.
     from . import solver_whole
@@ -759,3 +761,84 @@ def kernel_extents(chk, repo):
     for k in range(nsl * MAXY * ntyp): buf.store[k] = buf.default(k)
     Interp(repo, hooks={'global': lambda itp, m_, nm: X.atom('Gconst', 'pos') if nm in ('G', 'G_') else None}).call(md, fy, [buf, X.atom('R', 'pos'), X.atom('rhob', 'pos'), nsl, ntyp])
     report(f'cf_redimensionalize_radial_functions ({nsl} slices x {ntyp} types x 6)', md.where(fy), 'R06.2|extent|redimensionalize_radial_functions')
+
+
+# ------------------------------------------------------------------------------------------------ R06.7 an index is used before the quantity it is computed from is validated
+def use_before_guard(chk, repo, ms, f, required=True):
+    """Contradiction rule (check-after-use): the function validates one of its integer parameters (`if <comparison on p>: raise ...`), so it believes p can be out of
+    range; then no raw-pointer access indexed by an expression of p may execute before that validation.  A read of `ptr[p - 1]` ahead of the `p <= ...` guard is an
+    out-of-bounds access for exactly the values the guard exists to reject (p = 0 for an unsigned p: index SIZE_MAX)."""
+    from ..frontend.cfg import CFG, ENTRY
+    import networkx as nx
+    params = {a.arg for a in f.args.args}
+    cfg = CFG(f)
+    G = cfg.G
+    # guards: If whose body (directly) raises and whose test compares a parameter
+    guards = []
+    for n, dct in G.nodes(data=True):
+        st = dct.get('stmt')
+        if isinstance(st, ast.If) and any(isinstance(b, ast.Raise) for b in st.body):
+            names = {x.id for x in ast.walk(st.test) if isinstance(x, ast.Name)} & params
+            if names and any(isinstance(x, ast.Compare) for x in ast.walk(st.test)):
+                guards.append((n, st, names))
+    # pointer-typed parameters and locals (accesses through them are raw memory accesses)
+    types = var_types(ms, f)
+    def is_ptr(name):
+        t = types.get(name, '')
+        return '*' in t
+    # simple copies  v = <expr of p>  made before the guard propagate the dependence (top_slice_i = total_slices - 1)
+    dep = {p: {p} for p in params}
+    for st in f.body:
+        if isinstance(st, ast.Assign) and len(st.targets) == 1 and isinstance(st.targets[0], ast.Name):
+            src = set()
+            for x in ast.walk(st.value):
+                if isinstance(x, ast.Name) and x.id in dep: src |= dep[x.id]
+            if src and not any(isinstance(x, ast.Call) and not (isinstance(x.func, ast.Name) and x.func.id.startswith('__')) for x in ast.walk(st.value)):
+                dep[st.targets[0].id] = src
+    n_inst = 0
+    for gn, gst, gnames in guards:
+        dom_before = [n for n in G.nodes if n not in (gn,) and G.nodes[n].get('stmt') is not None and nx.has_path(G, n, gn)]
+        for n in dom_before:
+            st = G.nodes[n]['stmt']
+            hdr = st.test if isinstance(st, (ast.If, ast.While)) else (st.iter if isinstance(st, ast.For) else st)
+            if isinstance(st, (ast.Try, ast.With, ast.FunctionDef)): continue
+            for sub in ast.walk(hdr):
+                if isinstance(sub, ast.Subscript) and isinstance(sub.value, ast.Name) and is_ptr(sub.value.id):
+                    used = set()
+                    for x in ast.walk(sub.slice):
+                        if isinstance(x, ast.Name) and x.id in dep: used |= dep[x.id]
+                    hit = used & gnames
+                    # an address-of (&ptr[0]) computes an address, it does not touch memory
+                    if hit and not (isinstance(sub.slice, ast.Constant)):
+                        n_inst += 1
+                        p = sorted(hit)[0]
+                        chk.ob('R06.7', f'{f.name}: `{ast.unparse(sub)}` is evaluated only after `{p}` has been validated', False,
+                               f'memory at `{ast.unparse(sub)}` (line {getattr(sub, "lineno", "?")}) is read before the guard `if {ast.unparse(gst.test)[:60]}: raise` (line {gst.lineno}) has run: '
+                               f'among the values of `{p}` the guard exists to reject (0 for an unsigned size: the index wraps to SIZE_MAX) the access is out of bounds',
+                               ms.where(sub), key=f'R06.7|{f.name}|{ast.unparse(sub)}|{p}', method='CFG: access reaches the guard of the quantity it is indexed by (check-after-use)')
+    chk.ob('R06.7', f'{f.name}: {len(guards)} parameter guards found; no raw-pointer access indexed by a guarded parameter runs before its guard (other than the listed ones)', True, '', ms.where(f),
+           key=f'R06.7|{f.name}|scan', method='CFG reachability')
+    chk.note_analysed('parameter guards', [f'line {g[1].lineno}: {ast.unparse(g[1].test)[:50]}' for g in guards])
+    if not guards and required:
+        raise AnalysisError(f'{f.name}: no parameter guard found (front-end lost sight of the argument checks)')
+    return len(guards)
+
+
+def use_before_guard_all(chk, repo):
+    """the same contradiction rule over every function of the compiled solver package that validates one of its parameters"""
+    import glob, os
+    n = 0
+    for path in sorted(glob.glob(os.path.join(repo.root, 'TidalPy/RadialSolver/**/*.pyx'), recursive=True) + glob.glob(os.path.join(repo.root, 'TidalPy/utilities/dimensions/*.pyx'))):
+        rel = os.path.relpath(path, repo.root)
+        mod = repo.by_path(rel)
+        for fn in [x for x in ast.walk(mod.tree) if isinstance(x, ast.FunctionDef)]:
+            if fn.name == 'cf_radial_solver':
+                continue
+            has_guard = any(isinstance(st, ast.If) and any(isinstance(b, ast.Raise) for b in st.body) and any(isinstance(x, ast.Compare) for x in ast.walk(st.test))
+                            and ({x.id for x in ast.walk(st.test) if isinstance(x, ast.Name)} & {a.arg for a in fn.args.args}) for st in ast.walk(fn))
+            if has_guard:
+                try:
+                    n += use_before_guard(chk, repo, mod, fn, required=False)
+                except AnalysisError as ex:
+                    chk.note_analysed('R06.7 skipped', f'{rel}::{fn.name}: {str(ex)[:100]}')
+    chk.note_analysed('functions with parameter guards (besides cf_radial_solver)', n)
